@@ -5,7 +5,7 @@
   (`Expand.expandSuites`), validates the dependency graph (`Expand.validate` = `Deps.resolve` on the loaded tests) and
   builds the run-level project and task graph of the expanded tree.
     {"classes": [Cls], "nb_threads": n, "force": bool, "keep": null | [path]}
-      → {"load": {"ok": [Suite]} | {"err": [kind, text]},
+      → {"load": {"ok": [Suite]} | {"err": [kind, text]},      -- a test's "rank" is its key [rank, sub] (compared by ORDER among siblings)
          "expand": [Suite],                 -- expandSuites: what the declarations mean
          "agree": bool,                     -- load ok ⇒ same tree as expand
          "count": n,                        -- Σ expansionCount over the visible declarations
@@ -193,7 +193,7 @@ def jDep : DepArg → Json
 def jStrs (l : List String) : Json := Json.arr (l.map Json.str).toArray
 
 def jTest (t : Expand.Test) : Json :=
-  Json.mkObj ([("name", .str t.name), ("desc", .str t.desc), ("rank", Json.num t.rank), ("disabled", jDisabled t.disabled),
+  Json.mkObj ([("name", .str t.name), ("desc", .str t.desc), ("rank", Json.arr #[Json.num t.rank, Json.num t.sub]), ("disabled", jDisabled t.disabled),
                ("deps", Json.arr (t.deps.map jDep).toArray),
                ("params", Json.arr (t.params.map (fun (k, v) => Json.arr #[.str k, jPVal v])).toArray),
                ("fixtures", jStrs t.fixtures)] ++ jMeta t.md)
